@@ -167,7 +167,7 @@ fn run_stream_paced(filters: Vec<Filter>, msgs: &[DltMessage], s: &[usize]) -> R
 /// messages arrive in `portions` portions, each call gets the messages from all_msgs_last_processed_len on; the stream
 /// consists of filtered_msgs, or of all messages when the context reports no active filter. Returns, per position of the
 /// input, whether the stream contains it.
-fn run_ctx_stream(fs: &[AFilter], command: &str, msgs: &[DltMessage], s: &[usize], portions: usize) -> Result<Vec<bool>, String> {
+fn run_ctx_stream(fs: &[AFilter], command: &str, msgs: &[DltMessage], s: &[usize], portions: usize, chunk: usize) -> Result<Vec<bool>, String> {
     // request variants: without "filters" for the empty set, without "window" (defaults), with the one_pass / binary flags
     let mut req = serde_json::Map::new();
     if !(fs.is_empty() && portions != 2) {
@@ -189,10 +189,11 @@ fn run_ctx_stream(fs: &[AFilter], command: &str, msgs: &[DltMessage], s: &[usize
         let cuts: Vec<usize> = (1..=portions).map(|k| n * k / portions).collect();
         for avail in cuts {
             // remote.rs: process the messages that arrived since the last call (until nothing is left)
-            for _ in 0..4 {
+            // (max_chunk_size limits what one call looks at; the caller comes back for the rest)
+            for _ in 0..(n + 4) {
                 let from = ctx.all_msgs_last_processed_len.min(avail);
-                process_stream_new_msgs(&mut ctx, from, &all[from..avail], 3_000_000);
-                if ctx.all_msgs_last_processed_len >= avail {
+                process_stream_new_msgs(&mut ctx, from, &all[from..avail], chunk);
+                if ctx.all_msgs_last_processed_len >= avail || ctx.all_msgs_last_processed_len <= from {
                     break;
                 }
             }
@@ -432,13 +433,16 @@ fn run_case(o: &mut Out, fs: &[AFilter], amsgs: &[AMsg], streams: &[Vec<usize>],
     if let Some((si, command, portions)) = extra.ctx {
         let s = &streams[si];
         let name = if command == "stream" { "stream_context_stream" } else { "stream_context_query" };
-        match run_ctx_stream(fs, command, &msgs, s, portions) {
+        // one call of process_stream_new_msgs looks at all pending messages, or at 4 / 1 of them (max_chunk_size)
+        let chunk = [3_000_000usize, 4, 1][(case as usize / 3) % 3];
+        o.bump(&format!("stream_context_runs_chunk_{}", chunk), 1);
+        match run_ctx_stream(fs, command, &msgs, s, portions, chunk) {
             Ok(inside) => {
                 for (p, kept) in inside.iter().enumerate() {
                     let k = s[p] - 1;
                     let d = pred.map(|pr| pr.keep_ev[k] != *kept).unwrap_or(true);
                     if d || sampled {
-                        evs.push(json!({"ev":"set","impl":name,"mi":k + 1,"kept":kept,"pred":pred.map(|pr| pr.keep_ev[k] as i32).unwrap_or(-1),"portions":portions}));
+                        evs.push(json!({"ev":"set","impl":name,"mi":k + 1,"kept":kept,"pred":pred.map(|pr| pr.keep_ev[k] as i32).unwrap_or(-1),"portions":portions,"max_chunk_size":chunk}));
                     }
                     if pred.is_some() {
                         if d { drift += 1 } else { fast += 1 }
